@@ -690,7 +690,7 @@ func (v *Visitor) resolveSkipArrayItem(fieldRef int, fieldName string, enclosing
 			shouldIncludeDeprecated := false
 
 			if includeDeprecatedVariableName != "" {
-				shouldIncludeDeprecated = ctx.Variables.GetBool(includeDeprecatedVariableName)
+				shouldIncludeDeprecated = ctx.VariablesView().Get(includeDeprecatedVariableName).GetBool()
 			}
 
 			isDeprecated := itemValue.GetBool("isDeprecated")
